@@ -160,7 +160,7 @@ def run_check(modname, tier, seed, replay=None):
         for j in range(min(3, len(cases))):
             samples.append(cases[(seed + j * max(1, len(cases) // 3)) % len(cases)])
 
-    repdir = os.path.join(VERIF, 'replays', pid)
+    repdir = os.path.join(os.environ.get('VERIF_SCRATCH') or os.path.join(VERIF, 'replays'), pid)
     lines = []
     for kid, vs in sorted(knownhits.items()):
         k = next(x for x in known if x['id'] == kid)
